@@ -16,7 +16,7 @@ import (
 func init() {
 	register("C14",
 		"the effect of arbitrary Fix strings (run-time data; only the built-in literal is checked, AX-HOLIDAY-RUNTIME: strings passed to Fix are well-formed 18-byte records); the exact count of working days passed by the walk.",
-		r14_1, r14_2, r14_3, r14_4, r14_5)
+		r14_1, r14_2, r14_3, r14_4, r14_5, r14_6)
 }
 
 var recRe = regexp.MustCompile(`^(\d{4})(\d{2})(\d{2})(\d)(\d)(\d{4})(\d{2})(\d{2})$`)
